@@ -295,3 +295,215 @@ Proof.
     destruct (Z.leb_spec (l_end cs + tc_neg (m_cols m)) (tlen (m_cols m1))); [|lia].
     cbn [andb bind]. eauto.
 Qed.
+
+(* ------------------------------------------------------------------ capacity invariant *)
+Definition endl (tc : TrackCounts) : Z := tc_explicit tc + tc_pos tc.
+
+(* after k placed items: counts stay far below the i16 range *)
+Definition cap (m : matrix) (k : Z) : Prop :=
+  wf m /\ tc_neg (m_rows m) <= 127 /\ tc_neg (m_cols m) <= 127 /\
+  tc_explicit (m_rows m) <= 64 /\ tc_explicit (m_cols m) <= 64 /\
+  tc_pos (m_rows m) <= 400 + 128 * k /\ tc_pos (m_cols m) <= 400 + 128 * k.
+
+Lemma cap_bounds : forall m k a, cap m k -> 0 <= k <= 64 ->
+  tc_nonneg (track_counts m a) /\ tlen (track_counts m a) <= 9000 /\ tc_neg (track_counts m a) <= 127 /\
+  0 <= endl (track_counts m a) <= 8700.
+Proof.
+  intros m k a (Hwf & ? & ? & ? & ? & ? & ?) Hk. destruct Hwf as (Hnr & Hnc & _).
+  pose proof Hnr as (?&?&?). pose proof Hnc as (?&?&?).
+  destruct a; simpl; unfold tlen, endl; repeat split; auto; lia.
+Qed.
+
+Lemma axis_fits_mono : forall ln e tc tc', axis_fits ln e tc -> tc_neg tc' = tc_neg tc -> tc_explicit tc' = tc_explicit tc ->
+  tc_pos tc <= tc_pos tc' -> axis_fits ln e tc'.
+Proof.
+  intros ln e tc tc' [H1 H2] Hn He Hp. split.
+  - intros Hd. destruct (H1 Hd) as [r [Hr [? ?]]]. exists r. split; auto. lia.
+  - intros Hd. destruct (H2 Hd) as [s [Hs ?]]. exists s. split; auto. unfold tlen in *. lia.
+Qed.
+
+Definition explicit_at (ecc erc : Z) (a : axis) : Z := match a with Horizontal => ecc | Vertical => erc end.
+
+(* the child's two axes fit the current counts of m *)
+Definition child_fits (ecc erc : Z) (m : matrix) (c : child) : Prop :=
+  forall a, axis_fits (grid_placement c a) (explicit_at ecc erc a) (track_counts m a).
+
+Definition grows (m m' : matrix) : Prop :=
+  same_counts m m' /\ tc_pos (m_rows m) <= tc_pos (m_rows m') /\ tc_pos (m_cols m) <= tc_pos (m_cols m').
+
+Lemma grows_refl : forall m, grows m m.
+Proof. intros. split; [apply same_counts_refl|lia]. Qed.
+Lemma grows_trans : forall a b c, grows a b -> grows b c -> grows a c.
+Proof. intros a b c [S1 [? ?]] [S2 [? ?]]. split; [eapply same_counts_trans; eauto|lia]. Qed.
+
+Lemma child_fits_grows : forall ecc erc m m' c, child_fits ecc erc m c -> grows m m' -> child_fits ecc erc m' c.
+Proof.
+  intros ecc erc m m' c H [(S1 & S2 & S3 & S4) [P1 P2]] a. specialize (H a).
+  destruct a; simpl in *; eapply axis_fits_mono; eauto.
+Qed.
+
+Lemma origin_zero_placement_total : forall ecc erc c, 0 <= ecc <= 64 -> 0 <= erc <= 64 -> child_ok c ->
+  origin_zero_placement ecc erc c = Ok (mkBoth (ozln (c_col c) ecc) (ozln (c_row c) erc)).
+Proof.
+  intros ecc erc c He1 He2 [Hr Hc]. unfold origin_zero_placement. rewrite !into_origin_zero_total by auto. reflexivity.
+Qed.
+
+Lemma both_get_ozln : forall ecc erc c a,
+  both_get (mkBoth (ozln (c_col c) ecc) (ozln (c_row c) erc)) a = ozln (grid_placement c a) (explicit_at ecc erc a).
+Proof. intros. destruct a; reflexivity. Qed.
+
+Lemma ozln_is_ok : forall ln e, 0 <= e <= 64 -> ln_ok ln -> ozln_ok (ozln ln e).
+Proof. intros ln e He [Hs Ht]. split; simpl; apply ozp_spec_ok; auto. Qed.
+
+(* ------------------------------------------------------------------ record_grid_placement is total and keeps the capacity *)
+Lemma record_total : forall m items idx pax ps ss ty k, cap m k -> 0 <= k < 64 ->
+  let rs := row_span_of pax ps ss in let cs := col_span_of pax ps ss in
+  - tc_neg (m_rows m) <= l_start rs -> l_start rs < l_end rs -> l_end rs <= endl (m_rows m) + 128 ->
+  - tc_neg (m_cols m) <= l_start cs -> l_start cs < l_end cs -> l_end cs <= endl (m_cols m) + 128 ->
+  exists m', record_grid_placement m items idx pax ps ss ty = Ok (m', items ++ [mkItem idx cs rs]) /\
+             cap m' (k + 1) /\ grows m m' /\ l_end rs <= endl (m_rows m') /\ l_end cs <= endl (m_cols m').
+Proof.
+  intros m items idx pax ps ss ty k Hcap Hk rs cs A1 A2 A3 B1 B2 B3.
+  pose proof Hcap as (Hwf & N1 & N2 & E1 & E2 & P1 & P2).
+  pose proof Hwf as (Hnr & Hnc & _). pose proof Hnr as (?&?&?). pose proof Hnc as (?&?&?).
+  unfold endl in *.
+  destruct (mark_area_total m pax ps ss ty Hwf) as [m' Hm']; fold rs cs; try lia.
+  unfold record_grid_placement. rewrite Hm'. cbn [bind].
+  assert (Hit : (let '(col_span, row_span) := match pax with Horizontal => (ps, ss) | Vertical => (ss, ps) end in
+                 Ok (m', items ++ [mkItem idx col_span row_span])) = Ok (m', items ++ [mkItem idx cs rs])) by (destruct pax; reflexivity).
+  exists m'. split; [exact Hit|].
+  pose proof (mark_area_spec _ _ _ _ _ _ Hwf Hm' A2 B2) as
+    (Hwf' & Hn1 & He1 & Hp1 & Hn2 & He2 & Hp2 & _ & _ & Hi2 & _ & Hi4 & Hq1 & Hq2).
+  fold rs cs in Hq1, Hq2, Hi2, Hi4.
+  split; [|split; [|split; lia]].
+  - unfold cap. split; [exact Hwf'|]. lia.
+  - unfold grows, same_counts. lia.
+Qed.
+
+(* ------------------------------------------------------------------ the search loops terminate within their fuel *)
+Lemma unoccupied_total_axis : forall m pax ps ss k, cap m k -> 0 <= k <= 64 ->
+  -20000 <= l_start ps -> l_start ps <= l_end ps -> l_end ps <= 20000 ->
+  -20000 <= l_start ss -> l_start ss <= l_end ss -> l_end ss <= 20000 ->
+  exists b, line_area_is_unoccupied m pax ps ss = Ok b.
+Proof.
+  intros m pax ps ss k Hcap Hk A1 A2 A3 B1 B2 B3.
+  destruct (cap_bounds m k Horizontal Hcap Hk) as ((?&?&?) & ? & ? & ?).
+  destruct (cap_bounds m k Vertical Hcap Hk) as ((?&?&?) & ? & ? & ?). simpl in *.
+  destruct Hcap as (Hwf & _). apply unoccupied_total; auto; destruct pax; simpl; lia.
+Qed.
+
+Lemma unoccupied_beyond_primary : forall m pax ps ss b, wf m -> line_area_is_unoccupied m pax ps ss = Ok b ->
+  endl (track_counts m pax) <= l_start ps -> b = true.
+Proof.
+  intros m pax ps ss b Hwf H Hb. eapply unoccupied_beyond; eauto. unfold endl in Hb. destruct pax; simpl in *; auto.
+Qed.
+
+Lemma unoccupied_beyond_secondary : forall m pax ps ss b, wf m -> line_area_is_unoccupied m pax ps ss = Ok b ->
+  endl (track_counts m (other_axis pax)) <= l_start ss -> b = true.
+Proof.
+  intros m pax ps ss b Hwf H Hb. eapply unoccupied_beyond; eauto. unfold endl in Hb. destruct pax; simpl in *; auto.
+Qed.
+
+Lemma resolve_indefinite_total : forall z pos, ozln_ok z -> is_definite_oz z = false -> -20000 <= pos <= 20000 ->
+  exists r, resolve_indefinite_grid_tracks z pos = Ok r.
+Proof.
+  intros [a b] pos [Ha Hb] Hd Hp. unfold resolve_indefinite_grid_tracks, is_definite_oz in *. simpl in *.
+  destruct a, b; simpl in *; try discriminate; ok_steps; eauto.
+Qed.
+
+Lemma ssd_total : forall fuel m pl pax sec pos k, cap m k -> 0 <= k <= 64 ->
+  ozln_ok (both_get pl pax) -> is_definite_oz (both_get pl pax) = false ->
+  -20000 <= l_start sec -> l_start sec <= l_end sec -> l_end sec <= 20000 ->
+  - tc_neg (track_counts m pax) <= pos -> pos <= 10000 ->
+  Z.max 0 (endl (track_counts m pax) - pos) < Z.of_nat fuel ->
+  exists pp, search_secondary_definite fuel m pl pax sec pos = Ok (pp, sec) /\
+             pos <= l_start pp /\ l_start pp <= Z.max pos (endl (track_counts m pax)).
+Proof.
+  induction fuel; intros m pl pax sec pos k Hcap Hk Hok Hd S1 S2 S3 P1 P2 Hf; [lia|].
+  destruct (cap_bounds m k pax Hcap Hk) as ((?&?&?) & ? & ? & ?).
+  simpl. destruct (resolve_indefinite_total _ pos Hok Hd ltac:(lia)) as [pp Hpp]. rewrite Hpp. cbn [bind].
+  pose proof (resolve_indefinite_spec _ _ _ Hok Hpp) as (R1 & R2 & R3).
+  destruct (unoccupied_total_axis m pax pp sec k Hcap Hk) as [b Hb]; try lia. rewrite Hb. cbn [bind].
+  destruct b.
+  - exists pp. split; auto. lia.
+  - assert (Hlt : pos < endl (track_counts m pax)).
+    { destruct (Z.lt_ge_cases pos (endl (track_counts m pax))); auto.
+      assert (false = true) by (eapply unoccupied_beyond_primary; eauto; first [apply Hcap | lia]). discriminate. }
+    unfold ozl_add_u16, i16_add. rewrite u16_as_i16_small by lia. rewrite chk_i16_intro by lia. cbn [bind].
+    destruct (IHfuel m pl pax sec (pos + 1) k) as [pp' [Hs [? ?]]]; auto; try lia.
+    exists pp'. split; auto. lia.
+Qed.
+
+Lemma ss_total : forall fuel m pax pspan sspan idx k, cap m k -> 0 <= k <= 64 ->
+  -20000 <= l_start pspan -> l_start pspan <= l_end pspan -> l_end pspan <= 20000 -> 1 <= sspan <= 64 ->
+  - tc_neg (track_counts m (other_axis pax)) <= idx -> idx <= 10000 ->
+  Z.max 0 (endl (track_counts m (other_axis pax)) - idx) < Z.of_nat fuel ->
+  exists i, search_secondary fuel m pax pspan sspan idx = Ok (pspan, mkLn i (i + sspan)) /\
+            idx <= i /\ i <= Z.max idx (endl (track_counts m (other_axis pax))).
+Proof.
+  induction fuel; intros m pax pspan sspan idx k Hcap Hk S1 S2 S3 Hs P1 P2 Hf; [lia|].
+  destruct (cap_bounds m k (other_axis pax) Hcap Hk) as ((?&?&?) & ? & ? & ?).
+  simpl. unfold ozl_add_u16 at 1, i16_add. rewrite u16_as_i16_small by lia. rewrite chk_i16_intro by lia. cbn [bind].
+  destruct (unoccupied_total_axis m pax pspan (mkLn idx (idx + sspan)) k Hcap Hk) as [b Hb]; simpl; try lia. rewrite Hb. cbn [bind].
+  destruct b; simpl.
+  - exists idx. split; auto. lia.
+  - assert (Hlt : idx < endl (track_counts m (other_axis pax))).
+    { destruct (Z.lt_ge_cases idx (endl (track_counts m (other_axis pax)))); auto.
+      assert (false = true) by (eapply unoccupied_beyond_secondary; eauto; first [apply Hcap | simpl; lia]). discriminate. }
+    unfold ozl_add_u16, i16_add. rewrite u16_as_i16_small by lia. rewrite chk_i16_intro by lia. cbn [bind].
+    destruct (IHfuel m pax pspan sspan (idx + 1) k) as [i [Hs' [? ?]]]; auto; try lia.
+    exists i. split; auto. lia.
+Qed.
+
+(* the loop over both axes: fuel (end_s - s) * (plen + 2) + (end_p + 2 - p) + 2 suffices *)
+Lemma sb_total : forall fuel m pax pspan sspan pidx sidx k, cap m k -> 0 <= k <= 64 ->
+  1 <= pspan <= 64 -> pspan <= tlen (track_counts m pax) -> 1 <= sspan <= 64 ->
+  - tc_neg (track_counts m pax) <= pidx -> pidx <= endl (track_counts m pax) + 1 ->
+  - tc_neg (track_counts m (other_axis pax)) <= sidx -> sidx <= endl (track_counts m (other_axis pax)) + 1 ->
+  Z.max 0 (endl (track_counts m (other_axis pax)) - sidx) * (tlen (track_counts m pax) + 2) + (endl (track_counts m pax) + 2 - pidx) + 2 <= Z.of_nat fuel ->
+  exists i j, search_both fuel m pax pspan sspan (- tc_neg (track_counts m pax)) (endl (track_counts m pax)) pidx sidx
+              = Ok (mkLn i (i + pspan), mkLn j (j + sspan)) /\
+              - tc_neg (track_counts m pax) <= i /\ i + pspan <= endl (track_counts m pax) /\ sidx <= j /\
+              j <= Z.max sidx (endl (track_counts m (other_axis pax))) + 1.
+Proof.
+  induction fuel; intros m pax pspan sspan pidx sidx k Hcap Hk Hp Hpl Hs P1 P2 S1 S2 Hf.
+  { exfalso. assert (0 <= Z.max 0 (endl (track_counts m (other_axis pax)) - sidx) * (tlen (track_counts m pax) + 2)).
+    { apply Z.mul_nonneg_nonneg; [lia|]. destruct (cap_bounds m k pax Hcap Hk) as ((?&?&?) & _). unfold tlen. lia. }
+    simpl in Hf. lia. }
+  destruct (cap_bounds m k pax Hcap Hk) as ((?&?&?) & ? & ? & ?).
+  destruct (cap_bounds m k (other_axis pax) Hcap Hk) as ((?&?&?) & ? & ? & ?).
+  remember (track_counts m pax) as tp eqn:Etp. remember (track_counts m (other_axis pax)) as ts eqn:Ets.
+  assert (HW : 0 <= Z.max 0 (endl ts - sidx) * (tlen tp + 2)) by (apply Z.mul_nonneg_nonneg; unfold tlen; lia).
+  rewrite Nat2Z.inj_succ in Hf.
+  simpl. unfold ozl_add_u16 at 1, i16_add. rewrite u16_as_i16_small by lia. rewrite chk_i16_intro by lia. cbn [bind].
+  unfold ozl_add_u16 at 1, i16_add. rewrite u16_as_i16_small by lia. rewrite chk_i16_intro by lia. cbn [bind].
+  destruct (Z.gtb_spec (pidx + pspan) (endl tp)).
+  - (* primary out of bounds: next secondary index, primary back to the start *)
+    unfold ozl_add_u16, i16_add. rewrite u16_as_i16_small by lia. rewrite chk_i16_intro by lia. cbn [bind].
+    destruct (Z.lt_ge_cases sidx (endl ts)) as [Hlt|Hge].
+    + assert (Hfuel : Z.max 0 (endl ts - (sidx + 1)) * (tlen tp + 2) + (endl tp + 2 - - tc_neg tp) + 2 <= Z.of_nat fuel).
+      { replace (Z.max 0 (endl ts - (sidx + 1))) with (Z.max 0 (endl ts - sidx) - 1) by lia. unfold tlen, endl in *. nia. }
+      subst tp ts.
+      destruct (IHfuel m pax pspan sspan (- tc_neg (track_counts m pax)) (sidx + 1) k Hcap Hk Hp Hpl Hs) as (i & j & Hs' & ? & ? & ? & ?); try lia.
+      exists i, j. split; [auto|lia].
+    + (* beyond the last secondary track: the first probe fits *)
+      destruct fuel as [|fuel']; [exfalso; rewrite Z.max_l in Hf by lia; simpl in Hf; lia|].
+      simpl. unfold ozl_add_u16 at 1, i16_add. rewrite u16_as_i16_small by lia. rewrite chk_i16_intro by (unfold tlen, endl in *; lia). cbn [bind].
+      unfold ozl_add_u16 at 1, i16_add. rewrite u16_as_i16_small by lia. rewrite chk_i16_intro by lia. cbn [bind].
+      destruct (Z.gtb_spec (- tc_neg tp + pspan) (endl tp)); [unfold tlen, endl in *; lia|].
+      subst tp ts.
+      destruct (unoccupied_total_axis m pax (mkLn (- tc_neg (track_counts m pax)) (- tc_neg (track_counts m pax) + pspan)) (mkLn (sidx + 1) (sidx + 1 + sspan)) k Hcap Hk) as [b Hb]; simpl; try lia.
+      rewrite Hb. cbn [bind].
+      assert (b = true) by (eapply unoccupied_beyond_secondary; eauto; first [apply Hcap | simpl; lia]). subst b. simpl.
+      exists (- tc_neg (track_counts m pax)), (sidx + 1). split; auto. lia.
+  - subst tp ts.
+    destruct (unoccupied_total_axis m pax (mkLn pidx (pidx + pspan)) (mkLn sidx (sidx + sspan)) k Hcap Hk) as [b Hb]; simpl; try lia.
+    rewrite Hb. cbn [bind]. destruct b; simpl.
+    + exists pidx, sidx. split; auto. lia.
+    + unfold ozl_add_u16, i16_add. rewrite u16_as_i16_small by lia. rewrite chk_i16_intro by lia. cbn [bind].
+      assert (Hlt : sidx < endl (track_counts m (other_axis pax))).
+      { destruct (Z.lt_ge_cases sidx (endl (track_counts m (other_axis pax)))); auto.
+        assert (false = true) by (eapply unoccupied_beyond_secondary; eauto; first [apply Hcap | simpl; lia]). discriminate. }
+      destruct (IHfuel m pax pspan sspan (pidx + 1) sidx k Hcap Hk Hp Hpl Hs) as (i & j & Hs' & ? & ? & ? & ?); try lia.
+      exists i, j. split; [auto|lia].
+Qed.
